@@ -1236,7 +1236,8 @@ SyntaxVisitor::Action TypeChecker::visitPrefixUnaryExpression(
                 diagReporter_.ExpectedExpressionOfScalarType(node->operatorToken());
                 return typeCheckError(node);
             }
-            ty = ty_;
+            // The result has type int (6.5.3.3-5).
+            ty = semaModel_->compilation()->canonicalBasicType(BasicTypeKind::Int_S);
             break;
         }
         case SyntaxKind::AmpersandAmpersandToken:
